@@ -89,13 +89,21 @@ func runBatcherPoint(t *testing.T, name, point, mean string, nsubs int) error {
 		}
 		var closeReturned atomic.Bool
 		var wg sync.WaitGroup
+		var subsMu sync.Mutex
 		var subs []*subr
+		allSubs := func() []*subr {
+			subsMu.Lock()
+			defer subsMu.Unlock()
+			return append([]*subr(nil), subs...)
+		}
 		// Subscribers do not read on their own: their channel has room for everything this case can deliver, and
 		// drain() takes what is there without blocking. So "what Close's return finds" is an exact snapshot.
 		addSub := func() *subr {
 			ctx, cancel := context.WithCancel(context.Background())
 			s := &subr{ch: make(chan int, 8), cancel: cancel}
+			subsMu.Lock()
 			subs = append(subs, s)
+			subsMu.Unlock()
 			b.Subscribe(ctx, s.ch)
 			return s
 		}
@@ -167,7 +175,7 @@ func runBatcherPoint(t *testing.T, name, point, mean string, nsubs int) error {
 				defer calls.Done()
 				b.Close()
 				// Close has returned: every channel must be closed by now, and what they hold is final
-				for j, s := range subs {
+				for j, s := range allSubs() {
 					drain(s)
 					s.mu.Lock()
 					c := s.closed
@@ -197,7 +205,7 @@ func runBatcherPoint(t *testing.T, name, point, mean string, nsubs int) error {
 			calls.Add(1)
 			errs.Go(func() { defer calls.Done(); addSub() })
 		case "leave":
-			left = subs[0]
+			left = allSubs()[0]
 			left.cancel()
 		case "batch-same+close":
 			calls.Add(1)
@@ -207,7 +215,7 @@ func runBatcherPoint(t *testing.T, name, point, mean string, nsubs int) error {
 			}
 			doClose()
 		case "leave+close":
-			left = subs[0]
+			left = allSubs()[0]
 			left.cancel()
 			if !settle("leave while parked") {
 				return
@@ -246,7 +254,7 @@ func runBatcherPoint(t *testing.T, name, point, mean string, nsubs int) error {
 			}
 		}
 		if closes > 0 {
-			for j, s := range subs {
+			for j, s := range allSubs() {
 				drain(s)
 				s.mu.Lock()
 				closed, got := s.closed, append([]int(nil), s.got...)
@@ -275,7 +283,7 @@ func runBatcherPoint(t *testing.T, name, point, mean string, nsubs int) error {
 			default:
 				want = []int{100}
 			}
-			for j, s := range subs {
+			for j, s := range allSubs() {
 				if s == left {
 					continue
 				}
@@ -283,7 +291,7 @@ func runBatcherPoint(t *testing.T, name, point, mean string, nsubs int) error {
 				s.mu.Lock()
 				got := append([]int(nil), s.got...)
 				s.mu.Unlock()
-				if mean == "subscribe" && j == len(subs)-1 {
+				if mean == "subscribe" && j == len(allSubs())-1 {
 					// subscribed while the loop was parked: whether it was in time for value 100 depends on the point
 					if len(got) > 1 || (len(got) == 1 && got[0] != 100) {
 						errs.Failf("the subscriber added meanwhile received %v", got)
@@ -303,7 +311,7 @@ func runBatcherPoint(t *testing.T, name, point, mean string, nsubs int) error {
 			closeReturned.Store(true)
 		}
 		calls.Wait()
-		for _, s := range subs {
+		for _, s := range allSubs() {
 			s.cancel()
 		}
 		wg.Wait()
